@@ -1,4 +1,4 @@
-"""C15 — every simulator survives every opcode from every state, deterministically (MSP430, tms1000, 8008, lc3, 6502, tms9900, ebpf modelled;
+"""C15 — every simulator survives every opcode from every state, deterministically (MSP430, tms1000, 8008, lc3, 6502, 1802, tms9900, ebpf modelled;
 others explored)."""
 import os, re
 import nvlib, gen_msp430 as G, msp430_ref as R, gen_simx
@@ -25,12 +25,14 @@ THEOREMS = [
     "NakenVerif.C15.lc3_stop_running_is_an_input",
     "NakenVerif.C15.m6502_step_total_no_fault", "NakenVerif.C15.m6502_invariant_established", "NakenVerif.C15.m6502_run_no_fault",
     "NakenVerif.C15.m6502_pc_after_non_branching", "NakenVerif.C15.m6502_stop_running_is_an_input",
+    "NakenVerif.C15.c1802_step_total_no_fault", "NakenVerif.C15.c1802_invariant_established", "NakenVerif.C15.c1802_run_no_fault",
+    "NakenVerif.C15.c1802_stop_running_is_an_input",
     "NakenVerif.C15.tms9900_step_total", "NakenVerif.C15.ebpf_step_total", "NakenVerif.C15.ebpf_set_reg_no_fault",
 ]
 REG_NAME_PROBES = ["nosuchreg", "r", "r8", "r9", "r15", "r16", "r31", "r32", "r64", "r99", "r100", "r:", "rz", "r/", "R8", "x8",
                    "x31", "x32", "x99", "$0", "$31", "$32", "$99", "a0", "d8", "f32", "sp", "pc", "r-1", "w8", "r4294967296", "x4294967327", "r00000000008", "$-1", "x-1"]
 STOP_CLEARED = ["tms1000", "8008"]          # run() starts with stop_running = false (f100_l too: not modelled yet)
-SIMX_MODELLED = ["tms1000", "8008", "lc3", "6502", "tms9900", "ebpf"]   # simulators with a Lean step model tied by the `simx` stream
+SIMX_MODELLED = ["tms1000", "8008", "lc3", "6502", "1802", "tms9900", "ebpf"]   # simulators with a Lean step model tied by the `simx` stream
 SIMULATORS = {   # cpu_list name -> register names accepted by its set_reg (a few), value mask
     "msp430": (["r4", "r5", "sp", "sr"], 0xffff), "1802": (["r0", "r1", "d"], 0xffff), "6502": (["a", "x", "y", "sp"], 0xff),
     "65816": (["a", "x", "y", "sp"], 0xffff), "8008": (["a", "b", "c"], 0xff), "avr8": (["r0", "r16", "r30"], 0xff),
@@ -39,7 +41,7 @@ SIMULATORS = {   # cpu_list name -> register names accepted by its set_reg (a fe
     "tms1000": (["a", "x", "y"], 0xffff), "tms9900": (["r0", "r1"], 0xffff), "z80": (["a", "b", "hl", "sp"], 0xffff),
 }
 RULE = ("msp430: the C14 `sim` stream (stratified over all opcode strata; all 65,536 first words in the thorough tier) run "
-        "twice in separate processes; simx (tms1000, 8008, lc3, 6502, tms9900, ebpf): COMPLETE simulator state (every data member, the static "
+        "twice in separate processes; simx (tms1000, 8008, lc3, 6502, 1802, tms9900, ebpf): COMPLETE simulator state (every data member, the static "
         "stop_running, cycle_count, show) x first opcode byte exhaustive x sampled operands x boundary states (PC at the top of "
         "memory, SP at both ends of its stack, index registers 0 / max, RAM cells 0 / max), model against the real object; "
         "simstep: for each of the 15 simulators three fresh objects allocated from memory filled 0x00 / 0xff / 0x01 (uninitialised "
@@ -48,12 +50,12 @@ RULE = ("msp430: the C14 `sim` stream (stratified over all opcode strata; all 65
         "runs, 1 in 16 with the constructor's break_io (forked), set_reg name probes; distinct = distinct lines; non-trivial = the "
         "step executed (return value 0).")
 MODELLED = ("SimulateMsp430 (step, determinism, register-index safety, write set); disasm_msp430 length (table-driven model, exhaustive); "
-            "SimulateTms1000, Simulate8008, SimulateLc3, Simulate6502: one step of run(-1, 1) statement by statement over an explicit "
-            "state with every C array access checked (ram[64], reg[8], stack[8], the regenerated tms1000_* tables, "
+            "SimulateTms1000, Simulate8008, SimulateLc3, Simulate6502, Simulate1802: one step of run(-1, 1) statement by statement over an explicit "
+            "state with every C array access checked (ram[64], reg[8], stack[8], reg_r[16], the regenerated tms1000_* tables, "
             "table_6502_opcodes[256], disasm_6502 lengths[256]), reset / set_reg / set_pc / push, the static stop_running, "
             "break_io exit (6502); PC advance against the disassembler (tms1000 LFSR tables, 6502 disasm_6502 length); SimulateTms9900 and "
             "SimulateEbpf, which execute no instruction (tms9900: pc += 2, return 0 for a zero byte else -1; ebpf: 'CPU not supported')")
-NOT_MODELLED = ("explored only by the sanitised three-object sweep, no model and no proof: 1802, 65816, avr8, f100_l, mips, riscv, stm8, "
+NOT_MODELLED = ("explored only by the sanitised three-object sweep, no model and no proof: 65816, avr8, f100_l, mips, riscv, stm8, "
                 "z80.  In the modelled simulators: the display loop of "
                 "show == true beyond its table indices and lengths, serial devices (init_serial), break_point other than -1, the "
                 "auto-run loop (only msp430 has `simrun`), signed overflow of cycle_count after 2^31 cycles")
@@ -62,7 +64,7 @@ ASSUMPTIONS = ["pc_advance is proved for defined, non-branching instructions on 
                "writes_inside_address_space is proved for every state (after fixes 1402eee, d9b06ff)",
                "tms1000 / 8008 / 6502 safety is proved for states inside the invariant the simulator maintains (tms1000: nibble "
                "ranges; 8008: sp < 8; 6502: A, X, Y, SP in 0..255), which reset establishes and set_reg / set_pc / push / the step "
-               "keep (proved); lc3 needs no invariant",
+               "keep (proved); 1802: reg_p, reg_x < 16; lc3 needs no invariant",
                "the 6502 disassembler length is the regenerated table of disasm_6502's return value for each of the 256 first "
                "bytes (the translator calls the real function on every run)",
                "the step models are tied to the real objects by the simx stream only (differential, sampled operands)"]
